@@ -345,6 +345,14 @@ Theorem C04_fragment_event_second_operand :
 Proof. exact ebool_second. Qed.
 Print Assumptions C04_fragment_event_second_operand.
 
+(* the conditional at event level (`e.C(b)[0].pt() if e.C(b).Count() > 0 else -1.0`): only the taken arm is evaluated *)
+Theorem C04_fragment_event_conditional_lazy :
+  forall (ev : event) (c a b : ex) (x y : value) (t : bool),
+  de ev c = ROk x -> truth x = ROk t -> de ev (if t then a else b) = ROk y ->
+  dex ev (EIf c a b) = rdv (conv "double" y).
+Proof. exact eif_lazy. Qed.
+Print Assumptions C04_fragment_event_conditional_lazy.
+
 (* non-vacuity, on the emitted program itself: with no jets `Count() > 0 and [0].pt() > 5` writes the row (false); the
    unguarded index fails with out_of_range *)
 Definition jets_g : collref := {| c_base := "jets"; c_ctype := "const xAOD::JetContainer*"; c_bank := "aj"; c_arrow := true |}.
@@ -359,6 +367,15 @@ Example C04_event_guard_example :
   (exists ms, run_event (prog_row atlas_g [("ok", ColScalar guard_q)] 0) [("_ok5", ("bool", VUninit))] ev_nojets = ROk ([[VBool false]], ms)) /\
   (exists ms, run_event (prog_row atlas_g [("ok", ColScalar guard_q)] 0) [("_ok5", ("bool", VUninit))] ev_onejet = ROk ([[VBool true]], ms)) /\
   run_event (prog_row atlas_g [("ok", ColScalar (EBin OGt (EIdx jets_g 0 "pt") (EInt 5)))] 0) [("_ok1", ("bool", VUninit))] ev_nojets = RFault FOutOfRange.
+Proof. vm_compute. repeat split; eexists; reflexivity. Qed.
+
+Definition cond_q : ex :=
+  EIf (EBin OGt (ECount {| k_coll := jets_g; k_guard := GNone; k_agg := ACount |}) (EInt 0)) (EIdx jets_g 0 "pt") (ENeg (EInt 1)).
+Example C04_event_conditional_example :
+  (exists ms, run_event (prog_row atlas_g [("pt0", ColScalar cond_q)] 0) [("_pt05", ("double", VUninit))] ev_nojets
+              = ROk ([[VDbl (QArith_base.inject_Z (-1))]], ms)) /\
+  (exists ms, run_event (prog_row atlas_g [("pt0", ColScalar cond_q)] 0) [("_pt05", ("double", VUninit))] ev_onejet
+              = ROk ([[VDbl (QArith_base.inject_Z 9)]], ms)).
 Proof. vm_compute. repeat split; eexists; reflexivity. Qed.
 
 (* and / or in a Where of the fragment (lowered through a bool variable declared in the loop block, each further
